@@ -39,63 +39,70 @@ CONSTANTS EP,         \* endpoint names
           MaxLen
 
 VARIABLES kind,       \* [EP -> Kinds]            scenario constant
+          cfg,        \* [lb, prio]: the configured balancer and the endpoints' priorities (scenario constant)
           up, lists,  \* the world
           status, known,
           req,        \* the request in flight: [route, model, cands, tried, phase, served] or NoReq
           cnt,        \* [EP -> [ok, fail]]: attempts booked per endpoint (C19)
           act, scn
-vars == <<kind, up, lists, status, known, req, cnt, act, scn>>
+vars == <<kind, cfg, up, lists, status, known, req, cnt, act, scn>>
 
 NoReq == [route |-> "", model |-> "", cands |-> {}, tried |-> {}, phase |-> "none", served |-> "none"]
 \* "proxy" and the translated Anthropic route take any kind; a provider prefix only its own
 Allowed(route, e) == route \in {"proxy", "anthropic"} \/ kind[e] = route
 
+Balancers == {"round-robin", "priority", "least-connections"}
 Init == /\ kind \in [EP -> Kinds]
+        /\ cfg \in [lb : Balancers, prio : [EP -> 1..2]]
         /\ up = [e \in EP |-> "up"]
         /\ lists \in [EP -> SUBSET Models]
         \* the server has booted: every endpoint was probed and listed once
         /\ status = [e \in EP |-> "healthy"] /\ known = lists
         /\ req = NoReq /\ act = "Init" /\ cnt = [e \in EP |-> [ok |-> 0, fail |-> 0]]
-        /\ scn = <<[op |-> "boot", kind |-> kind, lists |-> lists]>>
+        /\ scn = <<[op |-> "boot", kind |-> kind, lists |-> lists, lb |-> cfg.lb, prio |-> cfg.prio]>>
 
 Idle == req.phase = "none"
 
 (* ---- the world ---- *)
 SetUp(e, b) == /\ Idle /\ act' = "SetUp" /\ up[e] # b /\ up' = [up EXCEPT ![e] = b]   \* b \in Modes
-               /\ UNCHANGED <<kind, lists, status, known, req, cnt>>
+               /\ UNCHANGED <<kind, cfg, lists, status, known, req, cnt>>
 Relist(e, S) == /\ Idle /\ act' = "Relist" /\ lists[e] # S /\ lists' = [lists EXCEPT ![e] = S]
-                /\ UNCHANGED <<kind, up, status, known, req, cnt>>
+                /\ UNCHANGED <<kind, cfg, up, status, known, req, cnt>>
 
 (* ---- a health round ---- *)
 Health == /\ Idle /\ act' = "Health"
           /\ status' = [e \in EP |-> CASE up[e] = "up" -> "healthy" [] up[e] = "sick" -> "unhealthy" [] OTHER -> "offline"]
           /\ known' = [e \in EP |-> IF up[e] = "up" /\ status[e] # "healthy" THEN lists[e] ELSE known[e]]
-          /\ UNCHANGED <<kind, up, lists, req, cnt>>
+          /\ UNCHANGED <<kind, cfg, up, lists, req, cnt>>
 
 (* ---- a request ---- *)
 Cands(route, m) == {e \in EP : status[e] = "healthy" /\ Allowed(route, e) /\ m \in known[e]}
 Arrive(route, m) == /\ Idle /\ act' = "Arrive"
                     /\ req' = [route |-> route, model |-> m, cands |-> Cands(route, m), tried |-> {},
                                phase |-> "choosing", served |-> "none"]
-                    /\ UNCHANGED <<kind, up, lists, status, known, cnt>>
-\* one attempt on a candidate not tried yet
-Attempt(e) == /\ req.phase = "choosing" /\ e \in req.cands \ req.tried /\ act' = "Attempt"
+                    /\ UNCHANGED <<kind, cfg, up, lists, status, known, cnt>>
+\* one attempt on a candidate not tried yet.  Under the priority balancer every attempt -- the first and each
+\* failover -- goes to the highest priority tier of what is left (C06 inside the composition); the other balancers
+\* may take any remaining candidate.
+Left == req.cands \ req.tried
+Pick(e) == e \in Left /\ (cfg.lb = "priority" => \A x \in Left : cfg.prio[x] <= cfg.prio[e])
+Attempt(e) == /\ req.phase = "choosing" /\ Pick(e) /\ act' = "Attempt"
               /\ IF up[e] # "down"
                  THEN /\ req' = [req EXCEPT !.tried = @ \cup {e}, !.phase = "served", !.served = e] /\ UNCHANGED status
                       /\ cnt' = [cnt EXCEPT ![e].ok = @ + 1]                 \* every attempt is booked exactly once
                  ELSE /\ req' = [req EXCEPT !.tried = @ \cup {e}]
                       /\ status' = [status EXCEPT ![e] = "offline"]          \* out of rotation until readmitted
                       /\ cnt' = [cnt EXCEPT ![e].fail = @ + 1]
-              /\ UNCHANGED <<kind, up, lists, known>>
+              /\ UNCHANGED <<kind, cfg, up, lists, known>>
 \* the client has its answer
 Answer == /\ req.phase \in {"choosing", "served"} /\ act' = "Answer"
           /\ (req.phase = "choosing" => req.cands \subseteq req.tried)       \* an error only when nothing is left
           /\ req' = NoReq
-          /\ UNCHANGED <<kind, up, lists, status, known, cnt>>
+          /\ UNCHANGED <<kind, cfg, up, lists, status, known, cnt>>
 
 \* a model listing under a provider prefix: only models olla knows on endpoints of that kind (C11)
 ListOK(route, ms) == ms \subseteq UNION {known[e] : e \in {x \in EP : Allowed(route, x)}}
-List(route) == /\ Idle /\ act' = "List" /\ UNCHANGED <<kind, up, lists, status, known, req, cnt>>
+List(route) == /\ Idle /\ act' = "List" /\ UNCHANGED <<kind, cfg, up, lists, status, known, req, cnt>>
 
 Log(t) == scn' = Append(scn, t)
 Modes == {"up", "sick", "down"}
@@ -121,8 +128,10 @@ RefusedIsOut == \A e \in req.tried : (e # req.served) => status[e] = "offline"
 \* olla's catalogue only ever holds what a backend really listed at some discovery: a model nobody ever listed
 \* is never a reason to contact anybody
 NeverListedNeverServed == (req.served # "none") => req.model \in Models
+\* under the priority balancer nobody is contacted while a strictly higher-priority candidate is still untried
+TopTierFirst == cfg.lb = "priority" => \A e \in req.tried : \A x \in req.cands \ req.tried : cfg.prio[x] <= cfg.prio[e]
 
-View == <<kind, up, lists, status, known, req>>   \* (cnt only grows: left out of the bounded model's view)
+View == <<kind, cfg, up, lists, status, known, req>>   \* (cnt only grows: left out of the bounded model's view)
 GenConstraint == Len(scn) <= MaxLen
 SimExport == (Len(scn) = MaxLen /\ Idle) => PrintT(<<"SCN", ToJson(scn)>>)
 =============================================================================
